@@ -38,7 +38,7 @@ def variant_of(eng, st, v, adt):
 
 
 def payload(eng, st, v, vname):
-    return eng.project(st, eng.project(st, v, ('v', vname)), ('f', 0, None))
+    return eng.project(st, eng.project(st, v, ('v', vname)), ('f', 0, '0'))
 
 
 # ---------------------------------------------------------------- Result / Option
@@ -209,7 +209,7 @@ def _as_ref(adt, names):
         idx = names.index(vn)
         if adt == OPT and vn == 'None':
             return NONE
-        inner = mk_ref(r, p + (('v', vn), ('f', 0, None)))
+        inner = mk_ref(r, p + (('v', vn), ('f', 0, '0')))
         return mk_enum(adt, vn, idx, (inner,))
     return m
 
